@@ -1,6 +1,6 @@
 import numpy as np
 from ..util import large_poisson
-from ..field import subsample_field, make_supersampled_grid
+from ..field import Field, subsample_field, make_supersampled_grid
 
 class Detector(object):
     '''Base class for a detector.
@@ -132,8 +132,12 @@ class NoiselessDetector(Detector):
         Field
             The final detector image.
         '''
-        # Make sure not to overwrite output
-        output_field = self.accumulated_charge.copy()
+        if np.isscalar(self.accumulated_charge):
+            # Nothing was integrated since the last read-out: the image is empty.
+            output_field = Field(np.zeros(self.detector_grid.size), self.detector_grid)
+        else:
+            # Make sure not to overwrite output
+            output_field = self.accumulated_charge.copy()
 
         # Reset detector
         self.accumulated_charge = 0
@@ -239,8 +243,12 @@ class NoisyDetector(Detector):
         Field
             The final detector image.
         '''
-        # Make sure not to overwrite output
-        output_field = self.accumulated_charge.copy()
+        if np.isscalar(self.accumulated_charge):
+            # Nothing was integrated since the last read-out: the image is empty.
+            output_field = Field(np.zeros(self.detector_grid.size), self.detector_grid)
+        else:
+            # Make sure not to overwrite output
+            output_field = self.accumulated_charge.copy()
 
         # Adding photon noise.
         if self.include_photon_noise:
